@@ -11,8 +11,11 @@ from . import ty as T
 
 class Record:
     def __init__(self, name, file=None, cls=None, fields=None, bases=(), pydantic=False, consts=None,
-                 check_attrs=True, extra_attrs=(), aliases=None):
+                 check_attrs=True, extra_attrs=(), aliases=None, union=()):
         self.name = name
+        # a *union record* has no fields of its own: a Ref[U] is a reference to an object of one of the member records (the member
+        # is recorded by the class tag `cls_tag(ref)` when a member-typed reference is widened); an attribute read dispatches on the tag
+        self.union = tuple(union)
         self.file = file
         self.cls = cls or name
         self.fields = {k: T.parse_ty(v) for k, v in (fields or {}).items()}
@@ -143,6 +146,9 @@ def ghost(name, ty):
 
 
 def define(name, params, expr):
+    # a later file silently redefining a global abbreviation changed the meaning of unrelated contracts (J(cluster) read another file's JOBS): refuse
+    if name in DEFS and DEFS[name] != (list(params), expr):
+        raise KeyError(f"define {name} is given twice with different bodies (use a contract-local `defs` entry or another name)")
     DEFS[name] = (list(params), expr)
 
 
